@@ -72,6 +72,9 @@ func EnumCase(path, in string, data interface{}, enum interface{}, caseSensitive
 					return nil
 				}
 			}
+		} else if enumValue == nil {
+			// nil is a member of an enum that lists nil
+			return nil
 		}
 		values = append(values, enumValue)
 	}
